@@ -261,7 +261,7 @@ def run_check(scratch, cid, jobs, limit=None, stop_after=1, timeout=900, seed="0
     cmd = [os.path.join(VERIF, "check"), cid, "--tier", "quick"]
     if limit:
         cmd += ["--limit", str(limit)]
-    e = dict(os.environ, VERIF_REPO=scratch, VERIF_SEED=seed, VERIF_JOBS=str(jobs), VERIF_STOP_AFTER=str(stop_after), VERIF_WATCHDOG_CAP="25")
+    e = dict(os.environ, VERIF_REPO=scratch, VERIF_SEED=seed, VERIF_JOBS=str(jobs), VERIF_STOP_AFTER=str(stop_after), VERIF_WATCHDOG_CAP="60")
     t0 = time.time()
     try:
         r = subprocess.run(cmd, env=e, cwd=VERIF, capture_output=True, text=True, timeout=timeout)
